@@ -1,6 +1,7 @@
 --------------------------- MODULE MC_SchemaCache ---------------------------
 (* All histories over an abstract alphabet: two caches, keys whose ground     *)
-(* truth is given by their first letter (v.. valid, i.. invalid).             *)
+(* truth is given by their first letter (v.. valid, i.. invalid, b.. broken   *)
+(* schema file).                                                              *)
 EXTENDS SchemaCache, Json
 CONSTANTS KeySet,      \* e.g. {"v1","v2","i1","i2"}
           MaxLen,      \* cache limit (small, so that eviction is exercised)
@@ -8,17 +9,18 @@ CONSTANTS KeySet,      \* e.g. {"v1","v2","i1","i2"}
           AsWas        \* TRUE: model the pre-fix code (the property must then fail)
 VARIABLES sv, va, hist, last
 
-FreshOf(k) == IF k \in {"v1", "v2", "v3"} THEN "valid" ELSE "invalid"
+FreshOf(k) == IF k \in {"v1", "v2", "v3"} THEN "valid" ELSE IF k \in {"b1", "b2"} THEN "broken" ELSE "invalid"
 V(c, k, ef) == IF AsWas THEN ValidateAsWas(c, k, ef, FreshOf(k), MaxLen) ELSE Validate(c, k, ef, FreshOf(k), MaxLen)
 
 Init == sv = <<>> /\ va = <<>> /\ hist = <<>> /\ last = [fn |-> "init", k |-> "", ef |-> FALSE, out |-> "True"]
 Next == /\ Len(hist) < MaxHist
         /\ \E fn \in {"sv", "va"}, k \in KeySet, ef \in BOOLEAN :
-             LET r == V(IF fn = "sv" THEN sv ELSE va, k, ef) IN
-             /\ sv' = IF fn = "sv" THEN r[2] ELSE sv
-             /\ va' = IF fn = "va" THEN r[2] ELSE va
-             /\ last' = [fn |-> fn, k |-> k, ef |-> ef, out |-> r[1]]
-             /\ hist' = Append(hist, [fn |-> fn, k |-> k, ef |-> ef])
+             /\ (fn = "sv" => FreshOf(k) # "broken")          \* only document validation meets a schema file that is broken
+             /\ LET r == V(IF fn = "sv" THEN sv ELSE va, k, ef) IN
+                  /\ sv' = IF fn = "sv" THEN r[2] ELSE sv
+                  /\ va' = IF fn = "va" THEN r[2] ELSE va
+                  /\ last' = [fn |-> fn, k |-> k, ef |-> ef, out |-> r[1]]
+                  /\ hist' = Append(hist, [fn |-> fn, k |-> k, ef |-> ef])
 Spec == Init /\ [][Next]_<<sv, va, hist, last>>
 
 HistoryIndependent == last.fn = "init" \/ last.out = FreshOutcome(FreshOf(last.k), last.ef)
